@@ -124,6 +124,9 @@ func (fr *frame) runDefers() {
 
 // lookupMethod returns the method of type typ.
 func lookupMethod(w *world, typ types.Type, meth *types.Func) *ssa.Function {
+	if typ == rtypeType {
+		return w.p.rtypeMethods[meth.Name()]
+	}
 	return w.p.prog.LookupMethod(typ, meth.Pkg(), meth.Name())
 }
 
